@@ -136,7 +136,16 @@ def judge_gradient(obs, spec, cfg, gres, fvals, pvals, tag, judge_merged_values=
         obs.check(gres.gradients is None, "gradients_reported_below_min_success", tag=tag)
         return False
     if gres.gradients is None:
-        obs.violation("gradients_missing", tag=tag, failed=failed_g, rmin=int(cfg.realizations.realization_min_success))
+        from checks.c01 import too_few_explained  # noqa: PLC0415
+
+        why = too_few_explained(spec, cfg, gres, fvals, failed_g)
+        if why is None:
+            obs.count("gradients_missing_ambiguous")
+        elif why:
+            obs.count("gradients_missing_explained_by_filter_or_estimator")
+        else:
+            obs.violation("gradients_missing", tag=tag, failed=failed_g, rmin=int(cfg.realizations.realization_min_success), filters=spec.get("filters"),
+                          estimators=spec.get("estimators"))
         return False
     if failed_g.all():
         obs.count("all_failed")
@@ -299,6 +308,10 @@ def run_case(case, obs):
                 fvals, pvals = allv[:R], allv[R:].reshape(R, P, F)
             else:
                 (fres,) = ee.calculate(x, compute_functions=True, compute_gradients=False)
+                if fres.functions is None:
+                    # an optimizer stops here (TOO_FEW_REALIZATIONS): nobody asks for the split gradient afterwards
+                    obs.count("trivial.split_functions_missing")
+                    continue
                 (gres,) = ee.calculate(x, compute_functions=False, compute_gradients=True)
                 c0, c1 = ev.calls[0], ev.calls[1]
                 fvals = c0.objectives if n_con == 0 else np.hstack([c0.objectives, c0.constraints])
